@@ -1,0 +1,183 @@
+//go:build verif
+// +build verif
+
+package broker
+
+// verif_hooks.go — add-only hooks for the verification harness (/verif,
+// properties C06, C11, C13). Built only with `-tags verif`. Nothing here
+// changes the behaviour of the package: the functions create clients without
+// goroutines and read the backend's state as plain data.
+
+import (
+	"net"
+	"sort"
+	"time"
+
+	"github.com/256dpi/gomqtt/packet"
+)
+
+// verifConn is a transport.Conn that does nothing (Client.Close calls conn.Close).
+type verifConn struct{}
+
+func (verifConn) Send(packet.Generic, bool) error  { return nil }
+func (verifConn) Receive() (packet.Generic, error) { select {} }
+func (verifConn) Close() error                     { return nil }
+func (verifConn) SetReadLimit(int64)               {}
+func (verifConn) SetReadTimeout(time.Duration)     {}
+func (verifConn) SetMaxWriteDelay(time.Duration)   {}
+func (verifConn) LocalAddr() net.Addr              { return nil }
+func (verifConn) RemoteAddr() net.Addr             { return nil }
+
+// VerifBareClient returns a *Client with the given id, a usable tomb (Closing
+// works, Close kills it) and an open closed channel, but without any goroutine,
+// so that Backend methods can be called with it directly.
+func VerifBareClient(backend Backend, id string) *Client {
+	return &Client{
+		state:   clientConnected,
+		backend: backend,
+		conn:    verifConn{},
+		id:      id,
+		closed:  make(chan struct{}),
+	}
+}
+
+// VerifSetSession assigns the session returned by Backend.Setup (what
+// processConnect does).
+func (c *Client) VerifSetSession(s Session) { c.session = s }
+
+// VerifMarkClosed closes the channel returned by Closed (what the cleanup
+// goroutine does after Terminate).
+func (c *Client) VerifMarkClosed() {
+	select {
+	case <-c.closed:
+	default:
+		close(c.closed)
+	}
+}
+
+// VerifIsClosing reports whether Closing() has fired.
+func (c *Client) VerifIsClosing() bool {
+	select {
+	case <-c.Closing():
+		return true
+	default:
+		return false
+	}
+}
+
+// VerifIsClosed reports whether Closed() has fired.
+func (c *Client) VerifIsClosed() bool {
+	select {
+	case <-c.closed:
+		return true
+	default:
+		return false
+	}
+}
+
+// VerifSub is one stored subscription.
+type VerifSub struct {
+	Topic string
+	QOS   packet.QOS
+}
+
+// VerifSession is the content of one memorySession.
+type VerifSession struct {
+	Subs      []VerifSub // sorted by topic
+	Temporary []packet.Message
+	Stored    []packet.Message
+	Active    *Client
+}
+
+// VerifState is the content of a MemoryBackend.
+type VerifState struct {
+	Stored    map[string]VerifSession
+	Temporary map[*Client]VerifSession
+	Active    map[string]*Client
+	Retained  []packet.Message // sorted by topic
+	Closing   bool
+}
+
+func verifQueue(ch chan *packet.Message) []packet.Message {
+	// rotate the channel once: order and content are unchanged afterwards
+	n := len(ch)
+	out := make([]packet.Message, 0, n)
+	for i := 0; i < n; i++ {
+		m := <-ch
+		out = append(out, *m)
+		ch <- m
+	}
+	return out
+}
+
+func verifSession(s *memorySession) VerifSession {
+	v := VerifSession{Active: s.activeClient}
+	for _, x := range s.subscriptions.All() {
+		sub := x.(*packet.Subscription)
+		v.Subs = append(v.Subs, VerifSub{Topic: sub.Topic, QOS: sub.QOS})
+	}
+	sort.Slice(v.Subs, func(i, j int) bool { return v.Subs[i].Topic < v.Subs[j].Topic })
+	v.Temporary = verifQueue(s.temporaryQueue)
+	v.Stored = verifQueue(s.storedQueue)
+	return v
+}
+
+// VerifSnapshot returns the backend's state. It must not be called while a
+// Dequeue is running (Dequeue does not take the global mutex).
+func (m *MemoryBackend) VerifSnapshot() VerifState {
+	m.globalMutex.Lock()
+	defer m.globalMutex.Unlock()
+
+	st := VerifState{
+		Stored:    map[string]VerifSession{},
+		Temporary: map[*Client]VerifSession{},
+		Active:    map[string]*Client{},
+		Closing:   m.closing,
+	}
+	for id, s := range m.storedSessions {
+		st.Stored[id] = verifSession(s)
+	}
+	for c, s := range m.temporarySessions {
+		st.Temporary[c] = verifSession(s)
+	}
+	for id, c := range m.activeClients {
+		st.Active[id] = c
+	}
+	for _, x := range m.retainedMessages.All() {
+		st.Retained = append(st.Retained, *x.(*packet.Message))
+	}
+	sort.Slice(st.Retained, func(i, j int) bool { return st.Retained[i].Topic < st.Retained[j].Topic })
+	return st
+}
+
+// VerifSessionKey says where the client's session is registered: "T" (its own
+// temporary session), "S"+id (stored session id), "nil" (no session), or
+// "orphan" (a session object that is in neither map).
+func (m *MemoryBackend) VerifSessionKey(c *Client) string {
+	m.globalMutex.Lock()
+	defer m.globalMutex.Unlock()
+
+	s, _ := c.session.(*memorySession)
+	if s == nil {
+		return "nil"
+	}
+	if m.temporarySessions[c] == s {
+		return "T"
+	}
+	for id, x := range m.storedSessions {
+		if x == s {
+			return "S" + id
+		}
+	}
+	return "orphan"
+}
+
+// VerifQueueLens returns the number of queued messages of a session returned
+// by MemoryBackend.Setup without taking any lock.
+func VerifQueueLens(s Session) (temporary, stored int) {
+	ms, _ := s.(*memorySession)
+	if ms == nil {
+		return 0, 0
+	}
+	return len(ms.temporaryQueue), len(ms.storedQueue)
+}
